@@ -17,6 +17,6 @@ LiteOp ==
   \/ Copy(1, 2, "null") \/ Copy(2, 1, "empty") \/ Copy(1, 1, "null")
   \/ Scribble(2) \/ Fini(2)
 Next3 == /\ ops < MaxOps /\ ops' = ops + 1
-         /\ IF ops < 2 THEN AnyOp ELSE LiteOp
+         /\ IF ops < 2 THEN (AnyOp \/ NoMemOp) ELSE LiteOp
 Spec3 == Init /\ [][Next3]_vars
 =============================================================================
